@@ -23,6 +23,7 @@ def run(ck):
     r = vlib.vh_json(["replay-cli", binp, exp, d], timeout=1200)
     absorb(ck, r, "cli", cmd=None)
     ck.add("traces_validated_against_impl", len(rows))
+    workspace(ck, binp, d)
     ck.cov["exhaustive"] = True
     ck.cov["rule"] = ("every configuration {workspace, single file} x {no input, text, line protocol file starting with a point / with comment lines / with blank lines / whose first "
                       "point has a line break inside a string field (the first POINT is the input)} x {json, lineprotocol} x script kinds "
@@ -32,3 +33,36 @@ def run(ck):
                       "API's result for the same script and input and with the model's final point. distinct = configurations.")
     ck.assumptions += ["log line decoration, key order and float formatting are not compared; the time of text inputs is 'now' (30 s slack)",
                        "TZ=UTC for zone-less timestamps"]
+
+
+def workspace(ck, binp, d):
+    """Workspace discovery and selection (spec/Workspace.tla): every subset of the sibling universe x what main.p uses x what -s names."""
+    q = ck.tier == "quick"
+    base = ("CONSTANTS BrokenSiblingPoisons = %s AnyOrder = %s SiblingCounts = %s\nSPECIFICATION Spec\n"
+            "INVARIANTS MatchesDefinition BystandersIrrelevant OnlyScriptsRun FoundAreScripts%s\nCHECK_DEADLOCK FALSE\n")
+    counts = "{0, 1, 2, 9, 10}" if q else "{0, 1, 2, 3, 4, 5, 6, 7, 8, 9, 10}"
+    res, rows = tlc_emit(ck, "Workspace", base % ("FALSE", "FALSE", counts, " Emit"), "Workspace (directory contents x selection)", timeout=1500)
+    # the directory is read in every order: same outcome (small directories)
+    res2, _ = tlc_emit(ck, "Workspace", base % ("FALSE", "TRUE", "{0, 1, 2, 3}" if q else "{0, 1, 2, 3, 4}", ""), "Workspace (every visiting order)", timeout=1500)
+    # vacuity guard: the named deviation (a rejected sibling refuses every selection) must violate BystandersIrrelevant in the model
+    dev = vlib.tlc("Workspace", base % ("TRUE", "FALSE", "{1}", ""), workers=4, timeout=300)
+    if dev.invariant not in ("BystandersIrrelevant", "MatchesDefinition"):
+        raise vlib.Broken("the Workspace model does not distinguish a poisoning sibling: %s" % dev.out[-800:])
+    ck.note("model_detects_poisoning_sibling", True)
+    # the runner is launched for the small and the nearly full directories and a sample of the rest; the library judges every row
+    every = 7 if q else 3
+    for i, r in enumerate(rows):
+        n = len(r["dir"]) - 1
+        r["cli"] = (n <= 1) or (i % every == 0)
+    exp = os.path.join(d, "ws.ndjson")
+    vlib.write_ndjson(exp, rows)
+    r = vlib.vh_json(["replay-workspace", exp, binp, d], timeout=2400)
+    absorb(ck, r, "workspace", cmd=["replay-workspace", "build", "tmp"])
+    ck.add("traces_validated_against_impl", len(rows))
+    ck.cov["workspace_rule"] = ("Workspace model: every directory made of main.p (15 bodies: no use(), one or two use() calls naming a sibling, a "
+                                "non-script file, a directory, a name without extension, a missing name) and a subset of 10 sibling entries "
+                                "(valid .p / .ppl, unparsable, check-failing, link-failing, using another sibling, using main.p, notes.txt, "
+                                "a.p.bak, a directory named sub.p) x 9 selections; TLC checks that the step machine (entries classified one "
+                                "by one, in every order for small directories) computes the declarative outcome and that entries the selection "
+                                "does not reach never matter; every behaviour is materialised on disk and judged through ReadPlScriptFromDir + "
+                                "ParseScript + Run, and a sample (all directories with <= 1 sibling, every %d-th other) through the built runner." % every)
